@@ -12,8 +12,8 @@ EXTENDS CddTypes, TLC, Json
 
 CONSTANTS MaxParams, Enabled, Shard, NShards
 
-JsonTyps == {"int", "float", "str", "bool", "dict", "list", "Opt_int", "Opt_float", "Opt_str", "Opt_bool", "Opt_dict", "Lit", "Lit2", "Opt_Lit2"}
-Lits == {"Lit", "Lit2"}
+JsonTyps == {"int", "float", "str", "bool", "dict", "list", "Opt_int", "Opt_float", "Opt_str", "Opt_bool", "Opt_dict", "Lit", "Lit2", "Opt_Lit2", "LitP"}
+Lits == {"Lit", "Lit2", "LitP"}
 JCompat(t, d) == Compat(t, d) \/ (d = "absent")
 JParams == {p \in [typ : JsonTyps, def : Defs \ {"code"}, doc : {"plain", "absent"}] :
               Compat(p.typ, p.def) /\ (p.typ = "list" => p.def = "absent")}
@@ -23,7 +23,7 @@ Rets == {NoRet, [typ |-> "int", def |-> "absent", doc |-> "plain"]}
 IDocs == {"one", "absent"}
 ParamSeqs == {<<>>} \cup {<<p>> : p \in JParams} \cup (IF MaxParams >= 2 THEN {<<p, r>> : p \in JParams, r \in SmallParams} ELSE {})
 
-JType(t) == CASE Base(t) = "int" -> "integer" [] Base(t) = "float" -> "number" [] Base(t) \in {"str", "Lit", "Lit2"} -> "string"
+JType(t) == CASE Base(t) = "int" -> "integer" [] Base(t) = "float" -> "number" [] Base(t) \in {"str", "Lit", "Lit2", "LitP"} -> "string"
               [] Base(t) = "bool" -> "boolean" [] Base(t) = "dict" -> "object" [] Base(t) = "list" -> "array"
 JsonTypeNames == {"integer", "number", "string", "boolean", "object", "array", "null"}
 Conforms(d, jt) == \/ d \in {"absent"} 
